@@ -294,8 +294,37 @@ fn decode(out: &[u8], elem_sites: &[usize], start_site: Option<usize>, init_get:
     Some(d)
 }
 
+const EXH_BASE: u64 = 1 << 40;
+const EXH_ALPHABET: usize = 16;
+fn exh_op(k: usize, fpc: &mut u64) -> HOp {
+    let mut nfp = || { *fpc += 1; *fpc };
+    match k {
+        0 => HOp::AddLocal(Sp::F, nfp()), 1 => HOp::AddImport(Sp::F, nfp()),
+        2 => HOp::Delete(Sp::F, 0), 3 => HOp::Delete(Sp::F, 2), 4 => HOp::Delete(Sp::F, 3),
+        5 => HOp::LocalToImport(2, nfp()), 6 => HOp::LocalToImport(3, nfp()),
+        7 => HOp::ImportToLocal(0, nfp()), 8 => HOp::ImportToLocal(2, nfp()),
+        9 => HOp::AddLocal(Sp::G, nfp()), 10 => HOp::AddImport(Sp::G, nfp()),
+        11 => HOp::Delete(Sp::G, 0), 12 => HOp::Delete(Sp::G, 1),
+        13 => HOp::ItAddGlobal(nfp()), 14 => HOp::AddImport(Sp::M, nfp()), _ => HOp::Delete(Sp::M, 0),
+    }
+}
+/// all histories of length 0..=3 over the 16-letter alphabet: 1 + 16 + 256 + 4096
+fn exh_count() -> u64 { 1 + 16 + 256 + 4096 }
+fn exh_history(mut k: u64, fpc: &mut u64) -> Vec<HOp> {
+    let a = EXH_ALPHABET as u64;
+    let mut len = 0;
+    let mut block = 1u64;
+    while k >= block { k -= block; block *= a; len += 1; }
+    let mut v = vec![];
+    for _ in 0..len { v.push((k % a) as usize); k /= a; }
+    v.iter().map(|x| exh_op(*x, fpc)).collect()
+}
+
 fn main() {
-    let args = parse_args();
+    let mut args = parse_args();
+    if args.flags.iter().any(|f| f == "--exhaustive") && args.only.is_none() {
+        for k in 0..exh_count() { args.extra.push((args.seed, EXH_BASE + k)); }
+    }
     let header = "From Coq Require Import List NArith.\nImport ListNotations.\nFrom Orca Require Import Reindex CheckReidx.\nOpen Scope N_scope.";
     let footer = format!("Eval vm_compute in (report_{} cases).", args.prop);
     let prop = args.prop.clone();
@@ -309,11 +338,21 @@ fn gen_case(r: &mut Rng, prop: &str, seed: u64, idx: u64) -> Case {
     let mut fpc = 0u64;
     let mut nfp = |fpc: &mut u64| { *fpc += 1; *fpc };
     let mut base = Base { imports: vec![], funcs: vec![], globals: vec![], mems: vec![], exports: vec![], start: None, elem_fn: vec![], elem_expr: vec![], data: vec![], probe_sites: vec![] };
+    let exhaustive = idx >= EXH_BASE;
+    if exhaustive {
+        // fixed base of the bounded-exhaustive enumeration: imports [func, global, func], locals f4 f5 probe, one global, one memory
+        base.imports = vec![(0, 1), (1, 2), (0, 3)];
+        base.funcs = vec![4, 5, PROBE_FP];
+        base.globals = vec![(6, None)];
+        base.mems = vec![7];
+        fpc = 7;
+    } else {
     for _ in 0..r.below(6) { let k = match r.below(10) { 0 | 1 | 2 => 0, 3 | 4 => 1, 5 | 6 => 2, 7 => 3, 8 => 4, _ => 0 }; let fp = nfp(&mut fpc); base.imports.push((k, fp)); }
     for _ in 0..r.below(4) { let fp = nfp(&mut fpc); base.funcs.push(fp); }
     base.funcs.push(PROBE_FP);
     for _ in 0..r.below(3) { let fp = nfp(&mut fpc); base.globals.push((fp, None)); }
     for _ in 0..r.below(3) { let fp = nfp(&mut fpc); base.mems.push(fp); }
+    }
     let cnt = |k: u64| base.imports.iter().filter(|x| x.0 == k).count() as u64;
     let nimp = [cnt(0), cnt(1), cnt(2)];
     let mut len = [nimp[0] + base.funcs.len() as u64, nimp[1] + base.globals.len() as u64, nimp[2] + base.mems.len() as u64];
@@ -385,9 +424,11 @@ fn gen_case(r: &mut Rng, prop: &str, seed: u64, idx: u64) -> Case {
     let mut dead_globals: Vec<u64> = vec![];
     let res = catch_unwind(AssertUnwindSafe(|| {
         let mut module = Module::parse(&bytes, true).expect("parse");
-        let nops = match prop { "C05" => r.below(5), _ => r.below(8) };
+        let script: Option<Vec<HOp>> = if exhaustive { let mut f2 = 1000u64; Some(exh_history(idx - EXH_BASE, &mut f2)) } else { None };
+        let nops = match (&script, prop) { (Some(sc), _) => sc.len() as u64, (None, "C05") => r.below(5), _ => r.below(8) };
         let mut forced = match prop { "C10" => Some(8u64), "C11" => Some(6), "C09" => Some(4), _ => None };
-        for _ in 0..nops {
+        if exhaustive { forced = None; }
+        for opn in 0..nops {
             let sp = pick_sp(r); let si = sp.code();
             let pick = |r: &mut Rng, v: &Vec<u64>, del: &Vec<u64>| -> Option<u64> {
                 if v.is_empty() { return None; }
@@ -395,7 +436,7 @@ fn gen_case(r: &mut Rng, prop: &str, seed: u64, idx: u64) -> Case {
                 if !live.is_empty() && !r.chance(1, 12) { Some(*r.pick(&live)) } else { Some(*r.pick(v)) }
             };
             let choice = forced.take().unwrap_or_else(|| r.below(14));
-            let op = match choice {
+            let op = if let Some(sc) = &script { sc[opn as usize].clone() } else { match choice {
                 0 | 1 => HOp::AddLocal(sp, nfp(&mut fpc)),
                 2 | 3 => HOp::AddImport(sp, nfp(&mut fpc)),
                 4 | 5 => { match pick(r, &known[si], &deleted[si]) { Some(id) if !(sp == Sp::F && id == probe_id) => HOp::Delete(sp, id), _ => continue } }
@@ -405,7 +446,7 @@ fn gen_case(r: &mut Rng, prop: &str, seed: u64, idx: u64) -> Case {
                 11 => { if sp == Sp::G { continue; } match pick(r, &known[si], &deleted[si]) { Some(id) => HOp::AddExport(sp, id), None => continue } }
                 12 => { if nexports == 0 { continue; } HOp::DeleteExport(r.below(nexports)) }
                 _ => { match pick(r, &known[2], &deleted[2]) { Some(id) => HOp::AddData(id), None => continue } }
-            };
+            } };
             hist.push(op.clone());
             // sites carried by built bodies
             let mut body_sites: Vec<Site> = vec![];
